@@ -815,6 +815,7 @@ func (m *Machine) builtin(b *ssa.Builtin, cc *ssa.CallCommon, args []Value) Valu
 		if mp == nil {
 			return nil
 		}
+		m.accessMap(mp, true)
 		for i, k := range mp.K {
 			if m.keyEq(k, args[1]) {
 				mp.K = append(mp.K[:i:i], mp.K[i+1:]...)
